@@ -15,7 +15,7 @@ import ast
 from typing import List, Optional, Set
 
 from .report import Ctx
-from .srcmodel import AnalysisError, call_leaf, calls_in, const_str, contains, dotted, get_kwarg, src, walk_local
+from .srcmodel import call_name, AnalysisError, call_leaf, calls_in, const_str, contains, dotted, get_kwarg, src, walk_local
 from .util import body_raises, nested_defs, enclosing_trys, enclosing_withs, guard_chain, root_name, strip_not
 
 NX = {"e"}
@@ -37,6 +37,22 @@ def guard_atoms_(node, stop):
     from .util import guard_atoms
 
     return guard_atoms(node, stop=stop)
+
+
+
+def _enclosing_test(node):
+    from .srcmodel import ancestors
+
+    prev = node
+    for a in ancestors(node):
+        if isinstance(a, (ast.If, ast.While, ast.IfExp)) and prev is a.test:
+            return a.test
+        if isinstance(a, ast.stmt):
+            return None
+        prev = a
+    return None
+
+from .util import guard_atoms as _ga14
 
 
 def run(ctx: Ctx) -> int:
@@ -451,6 +467,21 @@ def run(ctx: Ctx) -> int:
             resets = [s for s in walk_local(dia) if isinstance(s, ast.Assign) and any(isinstance(t, ast.Name) and t.id == flag for t in s.targets) and isinstance(s.value, ast.Constant) and s.value.value is None]
             ok = any(any(part == "handler" for _, part in enclosing_trys(s)) for s in resets) and any(isinstance(s, ast.Assign) and any(isinstance(t, ast.Name) and t.id == flag for t in s.targets) and isinstance(s.value, ast.Call) and call_leaf(s.value) == "_find_action" for s in walk_local(dia))
     ctx.oblige("C14.e", ok, pops[0] if pops else dia, "an old init_arg is discarded when the new class has no such parameter or its parser rejects the value" if ok else "the discard condition of discard_init_args_on_class_path_change changed (no longer: unknown to the new class, or rejected by it)", fn=dia, construct="discard condition")
+
+    # ---------------- C14.l: the implicit class of a short form is the DECLARED type, unless that is abstract ------------
+    ath14 = ctx.func("_typehints:adapt_typehints")
+    thp = ath14.args.args[1].arg if len(ath14.args.args) > 1 else "typehint"
+    n_abs = 0
+    for c in calls_in(ath14):
+        if call_name(c) == "inspect.isabstract" and c.args:
+            at = [t for t, pol in _ga14(c, stop=ath14)]
+            sib = [x for n_ in ast.walk(_enclosing_test(c)) for x in [n_] if isinstance(x, ast.Call) and call_leaf(x) == "is_protocol"] if _enclosing_test(c) is not None else []
+            if not sib:
+                continue
+            n_abs += 1
+            ok = ast.unparse(c.args[0]) == ast.unparse(sib[0].args[0])
+            ctx.oblige("C14.l", ok, c, "abstractness and protocol-ness are asked of the same (declared) type" if ok else f"`{ast.unparse(c)}` asks whether `{ast.unparse(c.args[0])}` is abstract, next to `{ast.unparse(sib[0])}` about the declared type: an abstract declared class becomes the implicit class_path of a short form (`--x.a=1`), the parse accepts it and instantiate_classes raises TypeError", fn=ath14)
+    ctx.floor("C14.l-abstract-tests", n_abs, 1)
 
     return ctx.finish(
         explanation=(
